@@ -225,9 +225,18 @@ def machine_spec(
         for g in gdefs:
             if g.get("async"):
                 g["yields"] = draw(st.sampled_from([0, 1, 2, 4]))
+    # when the machine class itself has a genuine coroutine method (so every instance runs on the async engine), some of the other
+    # coroutine callbacks are written as plain functions that return the awaitable
+    if any(c["async"] and c["prov"] == "machine" and not c.get("instance") and c["attach"] != "bound" for c in cbs):
+        anchor = next(c for c in cbs if c["async"] and c["prov"] == "machine" and not c.get("instance") and c["attach"] != "bound")
+        for c in cbs:
+            if c["async"] and (c["name"], c["prov"]) != (anchor["name"], anchor["prov"]) and first_def[(c["name"], c["prov"])] is c and draw(st.integers(0, 4)) == 0:
+                c["deferred"] = True
     for c in cbs:  # defs sharing one function agree on everything
         f = first_def[(c["name"], c["prov"])]
         c["async"], c["yields"] = f["async"], f["yields"]
+        if f.get("deferred"):
+            c["deferred"] = True
     spec = {"states": states, "trans": trans, "cbs": cbs, "guards": gdefs, "events": events}
     if sends and any(c["sends"] for c in cbs) and draw(st.integers(0, 4)) == 0:
         # callbacks that send also attach a (callback-less) listener first: attaching must not disturb the processing in progress
@@ -235,13 +244,22 @@ def machine_spec(
     return spec
 
 
+def deferred_ok(spec):
+    """`deferred` callbacks (plain functions returning an awaitable) are only rendered as such while the machine class itself keeps
+    a genuine coroutine method, so that every instance runs on the async engine whatever else a property module removed"""
+    return any(c.get("async") and not c.get("deferred") and c["prov"] == "machine" and not c.get("instance") for c in spec["cbs"])
+
+
 def is_async_spec(spec, providers=None, instance_cbs=True):
+    dok = deferred_ok(spec)
+
     def att(d):
         if d.get("instance") and not instance_cbs:
             return False  # a callback that exists on one provider object only, and not on this instance's provider
         return providers is None or d["prov"] in providers or d["prov"] in ("machine", "free", "ext")
 
-    return any(c.get("async") and att(c) for c in spec["cbs"]) or any(g.get("async") and att(g) for g in spec.get("guards", []))
+    # (a plain function that returns an awaitable - "deferred" - does not make a machine asynchronous)
+    return any(c.get("async") and not (dok and c.get("deferred")) and att(c) for c in spec["cbs"]) or any(g.get("async") and att(g) for g in spec.get("guards", []))
 
 
 @st.composite
